@@ -117,6 +117,19 @@ def real_scenic(f, closures, ids):
     return getattr(sp, SCENIC_CLASS[f[0]])(*kids)
 
 
+def _same_truth(I, got, val):
+    """the value handed to the monitor for an atom is the truth value of the condition (None counts as false)"""
+    import z3 as _z3
+
+    from pyvc.values import tobool as _tb
+
+    tv = I.truth(val)
+    tg = I.truth(got)
+    if isinstance(tv, bool) and isinstance(tg, bool):
+        return tv == tg and isinstance(got, bool)
+    return not I.eng.feasible(_z3.Not(_tb(tg) == _tb(tv)))
+
+
 def register(reg):
     install(reg)
     register_constructors(reg)
@@ -386,7 +399,7 @@ def register_monitor_update(reg):
         upd = [e for e in events if e[0] == "monitor.update"]
         if len(upd) == 1 and isinstance(upd[0][1], list):
             state = dict((k, v) for k, v in upd[0][1])
-            eng.check(f"{cn}#ensures.state_has_one_entry_per_atom_keyed_by_str_of_syntax_id", sorted(state) == sorted(str(ids[x]) for x in names) and all(state[str(ids[x])] is vals[x] for x in names))
+            eng.check(f"{cn}#ensures.state_has_one_entry_per_atom_keyed_by_str_of_syntax_id", sorted(state) == sorted(str(ids[x]) for x in names) and all(_same_truth(I, state[str(ids[x])], vals[x]) for x in names))
             # rv_ltl's precondition (Step = Dict[..., bool]; AtomicMonitor skips a None, see rvltl.AtomicMonitor._update_internal)
             eng.check(f"{cn}#call:rv_ltl.Monitor.update.requires[every atom gets a truth value: no None]", all(v is not None for v in state.values()))
         eng.check(f"{cn}#ensures.returns_the_monitors_verdict", outcome[1] is env.vars["_verdict"])
@@ -1100,7 +1113,7 @@ def register_require(reg):
                 eng.check(f"{cn}#ensures.run_time_non_temporal_requirement_false_implies_rejection{kind}", holds)
             else:
                 eng.check(f"{cn}#ensures.run_time_non_temporal_requirement_rejected_only_if_false{kind}", z3.Not(holds))
-            eng.check(f"{cn}#ensures.run_time_non_temporal_requirement_evaluated_now_and_not_registered", not log and sorted(set(calls)) == sorted(atoms_of(f)) and len(calls) == len(atoms_of(f)))
+            eng.check(f"{cn}#ensures.run_time_non_temporal_requirement_evaluated_now_and_not_registered", not log and set(calls) <= set(atoms_of(f)) and len(calls) == len(set(calls)))
 
     reg.add(
         C.Contract(
